@@ -26,12 +26,14 @@ from ..engine import (
     dotted_name,
     kwarg,
     norm,
+    qualname_of,
     returned_values,
     slice_text,
     stmt_of,
     walk_no_nested,
 )
 from ..pat import find, find1, match, name_of
+from ..normal import nfunc
 from ..report import Report
 
 GRAPH = "semantiva/pipeline/graph_builder.py"
@@ -119,12 +121,58 @@ def field_coverage(repo: Repo, R: Report) -> None:
     R.check(ui_keys is not None and ui_keys <= UI_ONLY_ALLOWED, r, SEM, "<module>", f"_UI_ONLY_KEYS = {sorted(ui_keys or [])}", f"keys {sorted((ui_keys or set()) - UI_ONLY_ALLOWED)} are stripped before hashing the node semantic id: differences there no longer change any id", ui.lineno if ui is not None else 0)
     cns = repo.func(SEM, "compute_node_semantic_id")
     dropped: Set[str] = set()
+    key_vars: Set[str] = set()
+    for g in ast.walk(cns):
+        if isinstance(g, (ast.comprehension, ast.For)):
+            it, tg = g.iter, g.target
+            if isinstance(it, ast.Call) and call_attr(it) == "items" and isinstance(tg, ast.Tuple) and tg.elts and isinstance(tg.elts[0], ast.Name):
+                key_vars.add(tg.elts[0].id)
+            elif isinstance(tg, ast.Name) and (isinstance(it, ast.Name) or (isinstance(it, ast.Call) and call_attr(it) == "keys")):
+                key_vars.add(tg.id)
     for c in ast.walk(cns):
-        if isinstance(c, ast.Compare) and len(c.ops) == 1 and isinstance(c.ops[0], (ast.NotEq, ast.NotIn)):
+        if isinstance(c, ast.Compare) and len(c.ops) == 1 and isinstance(c.ops[0], (ast.NotEq, ast.NotIn, ast.Eq, ast.In)) and isinstance(c.left, ast.Name) and c.left.id in key_vars:
             for x in ast.walk(c.comparators[0]):
                 if isinstance(x, ast.Constant) and isinstance(x.value, str):
                     dropped.add(x.value)
     R.check(dropped <= CANON_DROP_ALLOWED, r, SEM, "compute_node_semantic_id", f"keys dropped by canonicalisation: {sorted(dropped)}", f"{sorted(dropped - CANON_DROP_ALLOWED)} are dropped before hashing", cns.lineno)
+    # a key may be dropped by *position* only: a filter on the key's spelling inside a function that recurses over
+    # the whole metadata removes user-chosen names (a sweep variable or parameter that happens to be called like the
+    # dropped field) at every depth, and with them their domains / expressions
+    helpers: List[Tuple[str, ast.AST]] = [(qualname_of(n), n) for n in ast.walk(cns) if isinstance(n, FuncNode) and n is not cns]
+    for c in ast.walk(cns):
+        if isinstance(c, ast.Call) and isinstance(c.func, ast.Name):
+            t = sem.defs.get(c.func.id)
+            if isinstance(t, FuncNode) and all(t is not h for _q, h in helpers):
+                helpers.append((c.func.id, t))
+    n_filters = 0
+    for qn, h0 in helpers:
+        h = nfunc(repo, SEM, qn, copyprop="all", inline=False)
+        params = [a.arg for a in h.args.posonlyargs + h.args.args + h.args.kwonlyargs]
+        rec_calls = [c for c in ast.walk(h) if isinstance(c, ast.Call) and isinstance(c.func, ast.Name) and c.func.id == h.name]
+        # parameters whose value changes along the recursion (a depth / path argument)
+        varying: Set[str] = set()
+        for c in rec_calls:
+            bound = dict(zip(params, c.args))
+            bound.update({k.arg: k.value for k in c.keywords if k.arg})
+            for pn, v in bound.items():
+                if not (isinstance(v, ast.Name) and v.id == pn) and pn != params[0]:
+                    varying.add(pn)
+        tests: List[ast.AST] = []
+        for n in ast.walk(h):
+            if isinstance(n, ast.comprehension):
+                tests.extend(n.ifs)
+            elif isinstance(n, (ast.If, ast.IfExp)):
+                tests.append(n.test)
+        for t in tests:
+            cmp_consts = [x for x in ast.walk(t) if isinstance(x, ast.Compare) and any(isinstance(y, ast.Constant) and isinstance(y.value, str) for y in ast.walk(x)) or (isinstance(x, ast.Compare) and any(isinstance(y, ast.Name) and y.id in ("_UI_ONLY_KEYS",) for y in ast.walk(x)))]
+            if not cmp_consts:
+                continue
+            n_filters += 1
+            names = {x.id for x in ast.walk(t) if isinstance(x, ast.Name)}
+            positional = not rec_calls or bool(names & varying)
+            R.check(positional, r, SEM, qn, f"key filter `{_u(t)[:80]}`", "a key is dropped by its spelling at every depth of the metadata (recursive traversal without a position test): a sweep variable or parameter with that name - and its domain / expression - never reaches the node semantic id", t.lineno)
+    if n_filters == 0:
+        raise AnalysisError("compute_node_semantic_id: no key filter found (UI-only / raw-expression stripping vanished)")
     hd = [c for c in ast.walk(cns) if isinstance(c, ast.Call) and call_name(c) == "json.dumps" and not any(isinstance(a, FuncNode) and a is not cns for a in ancestors(c))]
     inner = [n.name for n in ast.walk(cns) if isinstance(n, FuncNode) and n is not cns]
     ok = False
@@ -300,3 +348,13 @@ def run(repo: Repo, R: Report) -> None:
     field_coverage(repo, R)
     sweep_metadata(repo, R)
     positional_and_domains(repo, R)
+    # an expression signature that merges expressions of different value makes two different sweeps share an id:
+    # the discrimination half of C12 (only +/* chains of one operator are flattened; every other position is
+    # kept in order) is a necessary condition of C05 as well
+    from . import c12
+
+    R.rule_prefix = "C05-D4/"
+    try:
+        c12.run(repo, R)
+    finally:
+        R.rule_prefix = ""
